@@ -5,6 +5,7 @@
 package l2
 
 import (
+	"encoding/json"
 	"errors"
 	"fmt"
 	"io"
@@ -149,6 +150,7 @@ type world struct {
 	start     time.Time
 	histCfgs  map[string][]*router.TopicEventHistoryConfig
 	lastSizes map[string]map[string]int
+	lastRoles string         // roles of the WELCOME of the join just performed (canonical JSON)
 	pubs      []wamp.ID      // publication ids of the PUBLISHED messages seen so far ({"$pub": j})
 	quit      chan struct{}  // closed at shutdown: releases helper goroutines
 	helpers   sync.WaitGroup // helper goroutines started by the harness inside the bubble
@@ -430,6 +432,9 @@ func (w *world) join(op map[string]any) string {
 		cl := &client{key: key, peer: c, sid: wel.ID, via: via != "" && !local}
 		w.clients[key] = cl
 		w.sidKey[wel.ID] = key
+		if b, err := json.Marshal(wamp.NormalizeDict(wel.Details)["roles"]); err == nil {
+			w.lastRoles = string(b)
+		}
 	default:
 		giveUp()
 		return "no WELCOME"
